@@ -16,6 +16,7 @@
                 TU   status updater (RunClientUpdater)
                 TX j   writer goroutine of the j-th raw-data archive
                 TQ   the RPC thread of the one client
+                TF i   the writer goroutine of channel i's data file
      steps      every step of a thread is a (possibly empty) list of events: accesses and
                 synchronisation halves (Conc.v).  A schedule is any list of [act]s; an act that is not
                 enabled in the current state is skipped, so EVERY list is a schedule.
@@ -32,7 +33,7 @@ From Coq Require Import List Arith Bool Lia.
 Import ListNotations.
 From Dastard Require Import C17.Conc.
 
-Inductive tid := TR | TA | TAW (i : nat) | TC | TW (i : nat) | TP | TU | TX (j : nat) | TQ.
+Inductive tid := TR | TA | TAW (i : nat) | TC | TW (i : nat) | TP | TU | TX (j : nat) | TQ | TF (i : nat).
 
 Inductive loc :=
 | LNext                      (* AnySource.nextFrameNum *)
@@ -48,7 +49,10 @@ Inductive loc :=
 | LWs                        (* WritingState fields that ComputeState copies (Active, FilenamePattern, ...) *)
 | LWsCnt                     (* WritingState.externalTriggerNumberObserved *)
 | LWsPaused                  (* WritingState.Paused *)
-| LStatus.                   (* SourceControl.status, isSourceActive *)
+| LStatus                    (* SourceControl.status, isSourceActive *)
+| LFile (i : nat)            (* the writer goroutine of channel i's data file (asyncbufio.Writer.writeLoop): its buffer
+                                and the error state of the underlying file; nobody else may look at it *)
+| LState.                    (* AnySource.sourceState, guarded by sourceStateLock *)
 
 Inductive mid :=
 | MBuf (k : nat)             (* k-th message on buffersChan *)
@@ -60,7 +64,8 @@ Inductive mid :=
 | MRate (x : nat)            (* TRIGGERRATE message on clientMessageChan *)
 | MReq (r : nat) | MRes (r : nat)              (* r-th request on queuedRequests / its reply on queuedResults *)
 | MWs                        (* the WritingState mutex *)
-| MXGo (j : nat) | MSnap (j : nat).            (* go of the j-th archive writer / its `complete` channel *)
+| MXGo (j : nat) | MSnap (j : nat)             (* go of the j-th archive writer / its `complete` channel *)
+| MState.                    (* sourceStateLock *)
 
 Definition tid_dec : forall a b : tid, {a = b} + {a <> b}.
 Proof. decide equality; apply Nat.eq_dec. Defined.
@@ -127,7 +132,10 @@ Inductive act :=
 | AW (i : nat) (pub : bool) (* worker i; pub: it made records and publishes them *)
 | AP | AU                   (* publisher / updater take one message *)
 | AX (j : nat)              (* archive writer j: next step *)
-| AQ (c : nat).             (* client: when idle, c = 0 ReadComment, c = k+1 a request of kind k; otherwise next step *)
+| AQ (c : nat)              (* client: when idle, c = 0 ReadComment, c = k+1 a request of kind k; otherwise next step *)
+| AF (i : nat)              (* file writer goroutine i writes its buffer out / meets an I/O error (own ticker or overflow) *)
+| AS (c : nat) (w : bool).  (* a short critical section of sourceStateLock: c = 0 the client's thread (GetState, Running,
+                               Configure..., Stop), otherwise the core loop (RunDoneDeactivate); w: it writes the state *)
 
 Definition chans (n : nat) : list nat := seq 0 n.
 Definition block_payload (n k : nat) : list (loc * bool) :=
@@ -331,6 +339,10 @@ Definition step (v : variant) (n : nat) (s : st) (a : act) : option (st * trace)
       | 2 => upd 0 (qr s) (qkind s) 0 [rd TQ LWs; rd TQ LWsCnt; rd TQ LWsPaused; Rel TQ MWs [(LWs, false); (LWsCnt, false)]]
       | _ => None
       end
+  | AF i => Some (s, [wr (TF i) (LFile i)])
+  | AS c w =>
+      let t := if c =? 0 then TQ else TC in
+      Some (s, [Acq t MState; Acc t LState w false; Rel t MState [(LState, false)]])
   end.
 
 (* run a schedule from a state: acts that are not enabled are skipped *)
@@ -361,6 +373,8 @@ Definition holders0 (v : variant) (l : loc) : option (list (Conc.holder tid mid)
   | LWsCnt => Some [HM MWs]
   | LWsPaused => Some [HT TC; HT TQ]
   | LStatus => Some [HT TQ]
+  | LFile i => Some [HT (TF i)]
+  | LState => Some [HM MState]
   end.
 
 Definition monitor_accepts (v : variant) (p : trace) : bool :=
